@@ -80,7 +80,10 @@ def il_symbols(m):
     defs, refs = {}, {}
     dups = []
     for d in m.data:
-        img, rel = qbeil.data_image(d)
+        try:
+            img, rel = qbeil.data_image(d)
+        except qbeil.ILSyntaxError:
+            img, rel = b'<object too large to materialise>', {}
         if d.name in defs:
             dups.append(d.name)
         defs[d.name] = {'kind': 'data', 'export': d.export, 'thread': d.thread, 'size': len(img), 'bytes': img}
